@@ -157,6 +157,10 @@ func genDetCase(c *core.Ctx, i int) detCase {
 			pairs = append(pairs, key+": "+[]string{"1", "\"s\"", "[1, 2]", "{in1: 1, In1: 2, in2: 3}", "2.5", "nil"}[r.Intn(6)])
 		}
 		src := "{{ {" + strings.Join(pairs, ", ") + "} }}|@dump({" + strings.Join(pairs, ", ") + "})"
+		if r.Intn(3) == 0 && len(pairs) >= 2 {
+			// a dumped object literal one of whose values fails (what @dump writes is up to it - but the same every time)
+			src = "@dump({" + strings.Join(pairs, ", ") + ", zlast: missing9})|@dump([{" + strings.Join(pairs, ", ") + "}, 1 / 0], {" + strings.Join(pairs, ", ") + "}.nofn())"
+		}
 		return detCase{map[string]any{"source": src}, func(c *core.Ctx) string { return observe(textwire.EvaluateString(src, nil)) }}
 	case 2: // object literals / array literals with 2..4 failing entries
 		fails := []string{"nope1", "1 / 0", "\"x\" + 1", "nope2.y", "5.nofn()", "7 % 0", "[1][0].k"}
@@ -276,6 +280,13 @@ func genDetCase(c *core.Ctx, i int) detCase {
 		return treeDetCase(files, "page")
 	case 6: // 2..4 faulty files at once (syntax errors and link errors)
 		files := map[string]string{"layouts/l.tw": "<@reserve(\"ok\")>", "components/c.tw": "<c>", "good.tw": "fine"}
+		if r.Intn(4) == 0 {
+			// one page that uses several components none of which can be applied (missing files, undeclared slots)
+			uses := []string{"@component(\"~ghost\")", "@component(\"~phantom\", {a: 1})", "@component(\"shared/absent\")", "@component(\"~c\")@slot(\"nowhere\")x@end@end", "@component(\"widgets/none\")", "@component(\"~c\")@slot y@end@end"}
+			r.Shuffle(len(uses), func(a, b int) { uses[a], uses[b] = uses[b], uses[a] })
+			files["page.tw"] = "l1\n" + strings.Join(uses[:2+r.Intn(4)], "\nline\n") + "\n"
+			return treeDetCase(files, "good")
+		}
 		kinds := []string{"{{ # }}", "@if(true)x", "@use(\"~ghost\")x", "@component(\"~ghost\")", "@use(\"~l\")@insert(\"nowhere\", 1)", "@component(\"~c\")@slot(\"u\")x@end@end", "{{ 1 + }}",
 			"@component(\"~c\", [{title: \"A\", count: 1, zeta: 2, Alpha: 3}])", "@component(\"~c\", dark ? theme : {bg: \"#fff\", fg: \"#000\", b: 1, a: 2})", "@component(\"~c\", {a: 1, b: 2, c: 3}.a)"}
 		if r.Intn(3) == 0 {
@@ -400,6 +411,14 @@ var c14ProcOps = []struct {
 	// one path, two contents of the same length written with the same modification time
 	{"evaluate note.tw holding its first content", func() string { return c14Rewritten("<b>{{ 2 * 3 }}</b> first") }},
 	{"evaluate note.tw holding its second content", func() string { return c14Rewritten("<i>{{ 2 * 5 }}</i> other") }},
+	{"page on a layout without reserves, kept template, for Ann", func() string {
+		out, fe := c14KeptTemplate().String("usesbare", map[string]any{"user": "Ann"})
+		return fmt.Sprint("OUT:", out, "|", fe)
+	}},
+	{"page on a layout without reserves, kept template, for Bob", func() string {
+		out, fe := c14KeptTemplate().String("usesbare", map[string]any{"user": "Bob"})
+		return fmt.Sprint("OUT:", out, "|", fe)
+	}},
 	{"evaluate a file by relative path under site-b", func() string {
 		os.Chdir(c14ProcRoot)
 		os.Chdir("site-b")
@@ -472,7 +491,7 @@ func init() {
 		c14ProcRoot, _ = os.Getwd()
 		for _, site := range []string{"site-a", "site-b"} {
 			files := map[string]string{"views/index.tw": "@use(\"~main\")@insert(\"body\")index of " + site + " for {{ who }}@end", "views/layouts/main.tw": "<" + site + ">@reserve(\"body\")</" + site + ">",
-				"views/bad.tw": "line one of " + site + "\n{{ nothing.here }}", "views/sum.tw": "{{ a + b }}",
+				"views/bad.tw": "line one of " + site + "\n{{ nothing.here }}", "views/sum.tw": "{{ a + b }}", "views/layouts/bare.tw": "bare layout for {{ user }}@if(user == \"Ann\") (hello Ann)@end", "views/usesbare.tw": "@use(\"~bare\")ignored page text",
 				"views/list.tw": "{{ [{name: user, id: 7}].join(\"; \") }}|{{ \"admin,editor\".contains(role) ? \"staff\" : \"guest\" }}|{{ [[user], [0]] }}|@each(n in [1, 2, 3]){{ true.then({pass: n, who: user}) }} @end"}
 			if site == "site-b" {
 				files["views/bad.tw"] = "\n\n" + files["views/bad.tw"]
